@@ -80,6 +80,23 @@ func CheckStorageHealth(storage SlabStorage, expectedNumberOfRootSlabs int) (map
 		}
 	}
 
+	// Every referenced slab must be one of the slabs in storage.  A missing (e.g. removed)
+	// referenced slab is never reached by the walk below, which starts from existing leaves.
+	// Report the smallest missing slab ID so the error doesn't depend on map iteration order.
+	var missingID SlabID
+	foundMissing := false
+	for childID := range parentOf {
+		if _, ok := slabs[childID]; !ok {
+			if !foundMissing || childID.Compare(missingID) < 0 {
+				missingID = childID
+				foundMissing = true
+			}
+		}
+	}
+	if foundMissing {
+		return nil, NewSlabNotFoundErrorf(missingID, "slab referenced by %s is not in storage", parentOf[missingID])
+	}
+
 	rootsMap := make(map[SlabID]struct{})
 	visited := make(map[SlabID]struct{})
 	var id SlabID
